@@ -591,6 +591,22 @@ let proto_line line =
      | Some i -> "rej " ^ string_of_int (int_of_nat i))
   | _ -> "bad-head"
 
+(* ------------------------------------------------------------------ args (C16): the start-up validation of the option combination *)
+(* line: <sanity|all|-> <none|its|stave> <period|-> <exit code|-> <-|missing|noext|ext:HEX>   ->  ok | rej *)
+let args_line line =
+  match split_ws line with
+  | [ck; tg; per; ex; sf] ->
+      let target = (match tg with "its" -> T_its | "stave" -> T_stave | _ -> T_none) in
+      let check = (match ck with "sanity" -> Some (CK_sanity, target) | "all" -> Some (CK_all, target) | _ -> None) in
+      let optn x = if x = "-" then None else Some (n_of_int (int_of_string x)) in
+      let sfile = (match sf with
+                   | "-" -> None
+                   | "missing" -> Some SF_missing
+                   | "noext" -> Some SF_no_ext
+                   | s -> Some (SF_ext (bytes_of_hex (String.sub s 4 (String.length s - 4))))) in
+      if validate_args { a_check = check; a_period = optn per; a_exit = optn ex; a_istats = sfile } then "ok" else "rej"
+  | _ -> "bad-line"
+
 let () =
   let stream = Sys.argv.(1) in
   let handler =
@@ -618,6 +634,7 @@ let () =
     | "wordspec" -> wordspec_line
     | "rdhspec" -> rdhspec_line
     | "proto" -> proto_line
+    | "args" -> args_line
     | _ -> prerr_endline ("unknown stream " ^ stream); exit 2
   in
   let buf = Buffer.create (1 lsl 20) in
